@@ -118,6 +118,11 @@ def extra_return(run, s, kw):
             tol = float(inst.get("opttol", 1e-6))
             d["optok"] = bool(s.obj - fs <= tol * (1.0 + fs))
             d["fstar"] = fs
+            sa = run.P.get("seen_args")
+            if sa is not None and inst.get("args"):
+                # extra arguments for h and for the proximal operator arrive unchanged (C06)
+                lam = run.P["lam"]
+                d["optok"] = d["optok"] and len(sa["h"]) > 0 and len(sa["prox"]) > 0 and all(t == (lam, "tag-h") for t in sa["h"]) and all(t == (lam, "tag-prox") for t in sa["prox"])
     return d
 
 
@@ -141,7 +146,8 @@ def record_one(inst):
     cfg = dict(maxfun=int(inst.get("maxfun", 60)), det=bool(det), reg=inst.get("reg", "none") != "none", hasproj=bool(inst.get("proj")),
                onesample=bool(onesample), valid=bool(inst.get("valid", True)), mayraise=bool(up.get("interpolation.throw_error_on_nans", False) or inst.get("mayraise", False)),
                wantopt=inst.get("fstar") is not None, ref=int(inst.get("ref", 0)), zero=0.0, r1e10=1e10,
-               rhobeg=float(out["run"].P["kwargs"]["rhobeg"]), rhoenddoc=recorder.doc_rhoend(inst, nrest),
+               rhobeg=float(out["run"].P["kwargs"].get("rhobeg", 0.1 if inst.get("scaling") else 0.1 * max(float(np.max(np.abs(out["run"].P["x0"]))), 1.0))),
+               rhoenddoc=recorder.doc_rhoend(inst, nrest),
                maxunsucc=int(inst.get("maxunsucc", up.get("restarts.max_unsuccessful_restarts", 10))),
                resetrho=bool(up.get("growing.reset_rho", False)),
                maxnpt=int(max(npt0 or (n + 1), up.get("restarts.max_npt", 0), (npt0 or n + 1) + int(inst.get("incnpt") or 0))))
